@@ -49,7 +49,9 @@ MinOf(S) == CHOOSE x \in S : \A y \in S : x <= y
 BLt(a, b) == a[1] < b[1] \/ (a[1] = b[1] /\ a[2] < b[2])
 MinBase(S) == CHOOSE x \in S : \A y \in S : ~BLt(y.base, x.base)
 MinPos(S) == CHOOSE x \in S : \A y \in S : x.p <= y.p
-MinRetr(S) == CHOOSE x \in S : \A y \in S : x.cur.p <= y.cur.p
+\* retr_q is keyed by the current position; two jobs may tie (a candidate and the master can
+\* both stand at the same I/O-block boundary), and then the heap may return either
+MinRetrs(S) == {x \in S : \A y \in S : x.cur.p <= y.cur.p}
 UnordQ == {u \in unord : u.inQ}
 MinU(S) == CHOOSE x \in S : \A y \in S : x.base <= y.base
 headOffs == IF inputQ = <<>> THEN tailOffs ELSE inputQ[1].off
@@ -63,8 +65,8 @@ CanReorder == /\ reordQ # {}
 CanParse == ~parsingDone /\ parseToken /\ workUnits > 0 /\ CanAttach(parserPos.o)
 CanEmit == /\ emitQ # {}
            /\ \/ outSlots > cfg.EmitTh
-              \/ (outSlots > 0 /\ orderQ # <<>> /\ MinBase(emitQ).base = Head(orderQ))
-CanRetrieve == retrQ # {} /\ CanAttach(MinRetr(retrQ).cur.o)
+              \/ (outSlots > 0 /\ orderQ # <<>> /\ ~BLt(Head(orderQ), MinBase(emitQ).base))
+CanRetrieve == \E r \in MinRetrs(retrQ) : CanAttach(r.cur.o)
 CanScan == /\ (workUnits > cfg.ScanTh \/ (workUnits > 0 /\ ~parseToken))
            /\ ~cfg.Ultra /\ scanQ # {} /\ CanAttach(MinPos(scanQ).o)
 Ready(task) == CASE task = "reorder"  -> CanReorder
@@ -138,16 +140,26 @@ LiveScan(sq, ho) == {x \in sq : x.o >= ho}
 \* apply the input-side result `s' of detach/advance; `pre' releases were already
 \* accounted for (trace binding: SrcRel events precede the event that ends the section)
 ApplyIn(s, pre) == /\ inputQ' = s.q /\ zombies' = s.z /\ inSlots' = inSlots + s.rel - pre
-\* advance(pos) with queues rq, sq and work units wu (after the caller's own changes)
-Advance(s0, pos, rq, sq, wu, pre) ==
+\* a retrieve job is abandoned: its unord_blk is freed if the parser has already disowned it
+\* (it is complete), otherwise it is marked complete so that the parser frees it when it
+\* dequeues it
+Disown(un, jobs) ==
+  LET mine(u) == \E r \in jobs : r.link /\ r.base = u.base
+  IN {IF mine(u) THEN [u EXCEPT !.complete = TRUE, !.legit = FALSE] ELSE u :
+        u \in {x \in un : ~(mine(x) /\ x.complete)}}
+\* advance(pos) with queues rq, sq, work units wu and unord records un (after the caller's
+\* own changes)
+Advance(s0, pos, rq, sq, wu, pre, un) ==
   LET s == AfterAdvance(s0, pos.o)
       ho == HeadOf(s.q)
   IN /\ ApplyIn(s, pre)
      /\ parserPos' = pos
      /\ retrQ' = LiveRetr(rq, ho) /\ scanQ' = LiveScan(sq, ho)
      /\ workUnits' = wu + Cardinality(rq) - Cardinality(LiveRetr(rq, ho))
-NoAdvance(s, rq, sq, wu, pre) ==
+     /\ unord' = Disown(un, rq \ LiveRetr(rq, ho))
+NoAdvance(s, rq, sq, wu, pre, un) ==
   /\ ApplyIn(s, pre) /\ parserPos' = parserPos /\ retrQ' = rq /\ scanQ' = sq /\ workUnits' = wu
+  /\ unord' = un
 
 ---------------------------------------------------------------------------
 \* ---- reader ----
@@ -191,9 +203,9 @@ DParseBegin(t) ==
 \* parse() == MORE: ran out of the attached block
 DParseMore(t, pos, pre) ==
   /\ Carry(t).k = "parse"
-  /\ Advance(AfterDetach(Carry(t).pin), pos, retrQ, scanQ, workUnits + 1, pre)
+  /\ Advance(AfterDetach(Carry(t).pin), pos, retrQ, scanQ, workUnits + 1, pre, unord)
   /\ parseToken' = TRUE /\ carry' = SetCarry(t, None)
-  /\ UNCHANGED <<cfg, outSlots, eof, reqClose, tailOffs, emitQ, reordQ, orderQ, unord, parsingDone,
+  /\ UNCHANGED <<cfg, outSlots, eof, reqClose, tailOffs, emitQ, reordQ, orderQ, parsingDone,
                  srcBuf, sinkQ, acks, written, failed>>
 \* parse() == FINISH: end of the last stream (pos is parser_bs after the garbage adjustment)
 DParseFinish(t, pos, pre) ==
@@ -204,7 +216,7 @@ DParseFinish(t, pos, pre) ==
   /\ workUnits' = workUnits + Cardinality(retrQ) + 1   \* every dropped job returns its unit
   /\ retrQ' = {} /\ scanQ' = {}
   /\ unord' = {[u EXCEPT !.inQ = FALSE, !.complete = TRUE, !.legit = FALSE] :
-                 u \in {x \in unord : ~(x.inQ /\ x.complete)}}
+                 u \in {x \in Disown(unord, retrQ) : ~(x.inQ /\ x.complete)}}
   /\ carry' = SetCarry(t, None)
   /\ UNCHANGED <<cfg, outSlots, eof, tailOffs, emitQ, reordQ, orderQ, srcBuf, sinkQ, acks, written, failed>>
 \* parse() reported a format error: failf()
@@ -224,21 +236,21 @@ DParseBlock(t, pos, pre) ==
          un == AfterStale(pos.p)
      IN IF HitU(pos.p) # {}
         THEN LET u == CHOOSE u \in HitU(pos.p) : TRUE IN            \* the scanner was here first
-             /\ Advance(s0, u.endp, retrQ, scanQ, workUnits + 1, pre)
              /\ IF u.complete
-                THEN /\ parseToken' = TRUE /\ unord' = un \ {u}
+                THEN /\ parseToken' = TRUE
+                     /\ Advance(s0, u.endp, retrQ, scanQ, workUnits + 1, pre, un \ {u})
                 ELSE /\ parseToken' = FALSE
-                     /\ unord' = (un \ {u}) \cup {[u EXCEPT !.inQ = FALSE, !.complete = TRUE, !.legit = TRUE]}
-        ELSE /\ Advance(s0, pos, retrQ \cup {[base |-> pos.p, cur |-> pos, link |-> FALSE]}, scanQ, workUnits, pre)
-             /\ parseToken' = FALSE /\ unord' = un
+                     /\ Advance(s0, u.endp, retrQ, scanQ, workUnits + 1, pre,
+                                (un \ {u}) \cup {[u EXCEPT !.inQ = FALSE, !.complete = TRUE, !.legit = TRUE]})
+        ELSE /\ Advance(s0, pos, retrQ \cup {[base |-> pos.p, cur |-> pos, link |-> FALSE]}, scanQ, workUnits, pre, un)
+             /\ parseToken' = FALSE
   /\ carry' = SetCarry(t, None)
   /\ UNCHANGED <<cfg, outSlots, eof, reqClose, tailOffs, emitQ, reordQ, parsingDone, srcBuf, sinkQ, acks, written, failed>>
 
 \* ---- do_retrieve ----
-DRetrBegin(t) ==
-  /\ Carry(t) = None /\ retrQ # {} /\ ~parsingDone
-  /\ LET rb == MinRetr(retrQ)
-         pin == PinOf(rb.cur.o)
+DRetrBegin(t, rb) ==
+  /\ Carry(t) = None /\ rb \in MinRetrs(retrQ) /\ ~parsingDone
+  /\ LET pin == PinOf(rb.cur.o)
      IN /\ CanAttach(rb.cur.o) /\ rb.cur.o >= headOffs     \* assert in can_attach()
         /\ retrQ' = retrQ \ {rb}
         /\ inputQ' = Pinned(inputQ, pin)
@@ -257,28 +269,31 @@ DRetrEnd(t, rv, pos, pre) ==
   /\ LET rb == Carry(t).rb
          s0 == AfterDetach(Carry(t).pin)
      IN CASE RetrKind(t) = "dead" ->                      \* FINISH happened meanwhile
-               /\ NoAdvance(s0, retrQ, scanQ, workUnits + 1, pre)
-               /\ unord' = (IF rb.link THEN unord \ {Lk(rb)} ELSE unord)
+               /\ NoAdvance(s0, retrQ, scanQ, workUnits + 1, pre, IF rb.link THEN unord \ {Lk(rb)} ELSE unord)
                /\ carry' = SetCarry(t, None)
                /\ UNCHANGED parseToken
           [] RetrKind(t) = "redundant" ->                 \* proven not legitimate
-               /\ NoAdvance(s0, retrQ, scanQ, workUnits + 1, pre)
-               /\ unord' = unord \ {Lk(rb)}
+               /\ NoAdvance(s0, retrQ, scanQ, workUnits + 1, pre, unord \ {Lk(rb)})
                /\ carry' = SetCarry(t, None)
                /\ UNCHANGED parseToken
           [] OTHER ->
                LET master == RetrMaster(t)
-                   rq1 == IF rv = MORE THEN retrQ \cup {[rb EXCEPT !.cur = pos]} ELSE retrQ
-                   un1 == IF master THEN unord ELSE (unord \ {Lk(rb)}) \cup {[Lk(rb) EXCEPT !.endp = pos]}
-               IN /\ IF master THEN Advance(s0, pos, rq1, scanQ, workUnits, pre)
-                               ELSE NoAdvance(s0, rq1, scanQ, workUnits, pre)
+                   \* a job the master has overtaken is dropped, not re-queued
+                   over == rv = MORE /\ ~master /\ pos.o < HeadOf(s0.q)
+                   rq1 == IF rv = MORE /\ ~over THEN retrQ \cup {[rb EXCEPT !.cur = pos]} ELSE retrQ
+                   \* unord records after this job's own update
+                   un1 == IF rv = MORE
+                          THEN (IF master THEN unord
+                                ELSE IF over THEN Disown((unord \ {Lk(rb)}) \cup {[Lk(rb) EXCEPT !.endp = pos]}, {rb})
+                                ELSE (unord \ {Lk(rb)}) \cup {[Lk(rb) EXCEPT !.endp = pos]})
+                          ELSE IF rb.link /\ ~Lk(rb).complete
+                          THEN (unord \ {Lk(rb)}) \cup {[Lk(rb) EXCEPT !.complete = TRUE, !.endp = pos]}
+                          ELSE (IF rb.link THEN unord \ {Lk(rb)} ELSE unord)
+               IN /\ IF master THEN Advance(s0, pos, rq1, scanQ, workUnits, pre, un1)
+                               ELSE NoAdvance(s0, rq1, scanQ, IF over THEN workUnits + 1 ELSE workUnits, pre, un1)
                   /\ IF rv = MORE
-                     THEN /\ unord' = un1 /\ carry' = SetCarry(t, None) /\ UNCHANGED parseToken
-                     ELSE /\ IF rb.link /\ ~Lk(rb).complete
-                             THEN /\ unord' = (unord \ {Lk(rb)}) \cup {[Lk(rb) EXCEPT !.complete = TRUE, !.endp = pos]}
-                                  /\ UNCHANGED parseToken
-                             ELSE /\ unord' = (IF rb.link THEN unord \ {Lk(rb)} ELSE unord)
-                                  /\ parseToken' = TRUE
+                     THEN /\ carry' = SetCarry(t, None) /\ UNCHANGED parseToken
+                     ELSE /\ (IF rb.link /\ ~Lk(rb).complete THEN UNCHANGED parseToken ELSE parseToken' = TRUE)
                           /\ carry' = SetCarry(t, [k |-> "decode", base |-> rb.base, st |-> rv])
   /\ UNCHANGED <<cfg, outSlots, eof, reqClose, tailOffs, emitQ, reordQ, orderQ, parsingDone,
                  srcBuf, sinkQ, acks, written, failed>>
@@ -351,14 +366,14 @@ DScanEnd(t, found, pos, atEnd, pre) ==
   /\ Carry(t).k = "scan"
   /\ LET s0 == AfterDetach(Carry(t).pin) IN
      IF ~found \/ parsingDone
-     THEN /\ NoAdvance(s0, retrQ, scanQ, workUnits + 1, pre) /\ UNCHANGED unord
+     THEN NoAdvance(s0, retrQ, scanQ, workUnits + 1, pre, unord)
      ELSE LET requeue == ~atEnd /\ pos.o >= headOffs
               sq == IF requeue THEN scanQ \cup {pos} ELSE scanQ
           IN IF pos.p <= parserPos.p
-             THEN /\ NoAdvance(s0, retrQ, sq, workUnits + 1, pre) /\ UNCHANGED unord   \* known
-             ELSE /\ NoAdvance(s0, retrQ \cup {[base |-> pos.p, cur |-> pos, link |-> TRUE]}, sq, workUnits, pre)
-                  /\ unord' = unord \cup {[base |-> pos.p, endp |-> pos, complete |-> FALSE,
-                                           legit |-> FALSE, inQ |-> TRUE]}
+             THEN NoAdvance(s0, retrQ, sq, workUnits + 1, pre, unord)                     \* known
+             ELSE NoAdvance(s0, retrQ \cup {[base |-> pos.p, cur |-> pos, link |-> TRUE]}, sq, workUnits, pre,
+                            unord \cup {[base |-> pos.p, endp |-> pos, complete |-> FALSE,
+                                         legit |-> FALSE, inQ |-> TRUE]})
   /\ carry' = SetCarry(t, None)
   /\ UNCHANGED <<cfg, outSlots, eof, reqClose, tailOffs, emitQ, reordQ, orderQ, parseToken, parsingDone,
                  srcBuf, sinkQ, acks, written, failed>>
@@ -373,7 +388,13 @@ DWritten ==
   /\ acks = 1 /\ outSlots' = outSlots + 1 /\ acks' = 0
   /\ UNCHANGED <<cfg, workUnits, inSlots, eof, reqClose, inputQ, zombies, tailOffs, scanQ, retrQ, emitQ, reordQ,
                  orderQ, unord, parseToken, parsingDone, parserPos, carry, srcBuf, sinkQ, written, failed>>
-\* source_close() is part of DParseFinish; the reader notices it here
+\* source_close(): called inside the FINISH critical section (DParseFinish sets reqClose as
+\* well; in recorded traces the call is visible on its own, a moment before ParseFinish)
+DSrcClose(t) ==
+  /\ Carry(t).k = "parse" /\ reqClose' = TRUE
+  /\ UNCHANGED <<cfg, workUnits, outSlots, inSlots, eof, inputQ, zombies, tailOffs, scanQ, retrQ, emitQ, reordQ,
+                 orderQ, unord, parseToken, parsingDone, parserPos, carry, srcBuf, sinkQ, acks, written, failed>>
+\* the reader notices the request
 DSrcStop == reqClose /\ srcBuf = 0 /\ UNCHANGED dvars
 
 ---------------------------------------------------------------------------
@@ -403,5 +424,10 @@ Quiescent == /\ eof /\ parsingDone /\ parseToken /\ workUnits = cfg.W /\ outSlot
              /\ orderQ = <<>> /\ UnordQ = {} /\ sinkQ = <<>> /\ acks = 0
              /\ \A t \in DOMAIN carry : carry[t] = None
 
-DataInv == Bounds /\ Capacity /\ ConserveWork /\ ConserveOut /\ AttachOK /\ OutOrdered
+\* every unord_blk is reachable: it sits in unord_q or a live retrieve job points at it
+\* (otherwise nobody can ever free it)
+Jobs == retrQ \cup {carry[t].rb : t \in {x \in DOMAIN carry : carry[x].k = "retr"}}
+NoLeak == \A u \in unord : u.inQ \/ \E r \in Jobs : r.link /\ r.base = u.base
+
+DataInv == Bounds /\ Capacity /\ ConserveWork /\ ConserveOut /\ AttachOK /\ OutOrdered /\ NoLeak
 =============================================================================
